@@ -2,7 +2,23 @@
    model/RdfXml.v is the mapping of RDF 1.1 XML Syntax section 7 on namespace-resolved element trees; the decoder is
    compared with it on every generated document (the model is the denotation). Theorems: facts of the mapping that
    hold for documents of any size. *)
-From RK Require Import Base Iri3986 RdfXml RdfXmlProofs.
+From RK Require Import Base Iri3986 RdfXml RdfXmlProofs RdfXmlRoundTrip.
+
+(* every graph has a document which denotes it: one rdf:Description with one property element per triple
+   (rdf:about / rdf:nodeID, rdf:resource, rdf:datatype, xml:lang), mapped back, gives the triples in order, under any
+   base *)
+Theorem C09_flat_document_denotes : forall base ts,
+  forallb triple_ok ts = true -> rdfxml_doc base (flat_rdfxml ts) = Some ts.
+Proof. exact flat_rdfxml_roundtrip. Qed.
+Print Assumptions C09_flat_document_denotes.
+
+Example C09_triples_ok :
+  forallb triple_ok
+    [(RI (s2b "http://e/s"), s2b "http://e/p", RL (s2b "x") xsd_string_dt []);
+     (RB false (s2b "b0"), s2b "urn:x:p", RL (s2b "chat") lang_string_dt (s2b "fr"));
+     (RI (s2b "http://e/s"), rdf "type", RB false (s2b "b0"));
+     (RI (s2b "http://e/s"), s2b "http://e/q", RL (s2b "5") (s2b "http://www.w3.org/2001/XMLSchema#integer") [])] = true.
+Proof. vm_compute. reflexivity. Qed.
 
 (* container membership: the i-th rdf:li of an element becomes rdf:_i, for every number of items and whatever the
    starting state *)
